@@ -320,6 +320,33 @@ def msg_body(item, env, bound):
     return body
 
 
+def run_freeform(args):
+    """free-form programs (mc.gen.freeform) x data patterns: every existing path of whatever the decoder read, evaluated
+    over the message's own nested JSON"""
+    from mc.gen import freeform as F
+    progs, patterns, envs = args
+    p = Partial()
+    for name, descs in progs:
+        for pat in patterns:
+            for nsub, comp in envs:
+                b = F.build(descs, pat, nsub, comp)
+                cnt, viols = judge_message(b, 1, path_cap=24, slices_last_only=True)
+                if any(v[0] == 'skip' for v in viols):
+                    p.n['undecodable'] += 1
+                    continue
+                p.n['messages'] += 1
+                p.n['exec'] += cnt['queries']
+                p.n['undefined_skipped'] += cnt['undefined_skipped']
+                p.outcome((name.split('|')[0], nsub, comp, min(cnt['paths'], 12)))
+                for sig, detail, expr in viols:
+                    p.violation('%s|freeform|%s' % (sig, name.split('|')[0]),
+                                {'name': name, 'descs': descs, 'pattern': pat, 'nsub': nsub, 'compressed': comp, 'expr': expr}, detail,
+                                observed=b)
+    p.n['nodes'] += p.n['exec'] + p.n['messages']
+    p.n['edges'] += p.n['exec']
+    return p
+
+
 def restore(descs, subs, compressed):
     """re-encode the given expected subsets with the other storage form"""
     B, D = S.tables_for(33)
@@ -388,6 +415,12 @@ def run_corpus(args):
 
 
 def replay(part, case):
+    if part == 'freeform':
+        from mc.gen import freeform as F
+        cnt, viols = judge_message(F.build(case['descs'], case['pattern'], case['nsub'], case['compressed']), 1, path_cap=24,
+                                   slices_last_only=True)
+        return [{'sig': '%s|freeform|%s' % (s_, case['name'].split('|')[0]), 'detail': d} for s_, d, e in viols
+                if e == case['expr'] and s_ != 'skip']
     if part == 'corpus':
         from mc.gen.corpus import TESTS, scan
         m = scan(open(os.path.join(TESTS, case['file']), 'rb').read())[case['index']]
@@ -443,6 +476,17 @@ def main(tier, seed):
         rep.add_part(name, p, bounds=dict(items=len(items), slice_deviations=bound,
                                           slices=len(LATTICE if env.get('lattice') else SLICES) - 1,
                                           selectors=len(LATTICE_SELECTORS if env.get('lattice') else SELECTORS) - 1, **env))
+    from mc.gen import freeform as F
+    if tier == 'quick':
+        progs = F.operator_programs(3, 2) + F.focused_programs(4, 2) + F.marker_programs(3, 2)
+        pats, envs = [0, 3], [(1, False), (2, True)]
+    else:
+        progs = F.operator_programs(4, 2) + F.focused_programs(5, 3) + F.marker_programs(4, 3) + F.marker_programs(3, 2, base='B')
+        pats, envs = [0, 2, 3, 5], [(1, False), (2, False), (2, True)]
+    p = merge_all(run_shards(run_freeform, [(s_, pats, envs) for s_ in split(progs, 128)]))
+    rep.add_part('freeform', p, bounds={'programs': len(progs), 'patterns': [F.PATTERNS[i][0] for i in pats], 'envelopes': envs,
+                                        'paths_per_message_cap': 24, 'slices_on': 'last step',
+                                        'grammar': 'mc.gen.freeform (outside the reference envelope; nested JSON is the base)'})
     msgs = list(corpus.messages(max_bytes=3000 if tier == 'quick' else 40000))
     cap = 40 if tier == 'quick' else 400
     p = merge_all(run_shards(run_corpus, [(s, cap) for s in split(msgs, 128)]))
